@@ -4,6 +4,7 @@ Real code executed symbolically: every method of klongpy.db.file_cache.FileCache
 helpers.serialize_obj/deserialize_obj/key_to_file_path.  Stand-ins: model FS, lazy executor, monotone clock.
 """
 from vt.world import enter, verdict, cfg, CFG, pick
+import copy as _copy
 from vt import modelfs as M
 import klongpy.db.file_cache as FC
 import klongpy.db.sys_fn_kvs as KVS
@@ -145,18 +146,22 @@ def kvs_seq(o1: int, o2: int, o3: int, o4: int, o5: int, v1: int, v2: int, v3: i
             o = ops[i]
             if o <= 1 or o == 6:
                 k = pick(KEYS, o) if o <= 1 else KEYS[0]
-                v = pick(VALUES, vals[i])
+                v = _copy.deepcopy(pick(VALUES, vals[i]))
+                model[k] = _copy.deepcopy(v)
                 if o == 6:
                     st[k] = v
                 else:
                     st.set(k, v)
-                model[k] = v
+                if isinstance(v, list):
+                    v.append("changed by the caller after the set")       # the store holds the value as it was when set
             elif o <= 4:
                 k = pick(KEYS, o - 2)
                 r = st.get(k)
                 if k in model:
                     if r != model[k] or type(r) is not type(model[k]):
                         return verdict(False)
+                    if isinstance(r, list):
+                        r.append("changed by the caller after the get")   # what a caller does to a result is not a set
                 elif r is not KLONG_UNDEFINED:
                     return verdict(False)
             else:
@@ -175,6 +180,8 @@ def kvs_seq(o1: int, o2: int, o3: int, o4: int, o5: int, v1: int, v2: int, v3: i
                 if k in model:
                     if r != model[k]:
                         return verdict(False)
+                    if isinstance(r, list):
+                        r[0] = "scribbled"
                 elif r is not KLONG_UNDEFINED:
                     return verdict(False)
         return verdict(True)
